@@ -39,6 +39,9 @@ func deferredIDs(p *gm.Program) []int {
 		if n.K == gm.Yield && len(n.X) == 1 && n.X[0].K == gm.Num && n.X[0].I >= 1 && n.X[0].I <= 3 {
 			seen[n.X[0].I] = true
 		}
+		if n.K == gm.Prom {
+			seen[n.I] = true
+		}
 	})
 	var ids []int
 	for k := 1; k <= 3; k++ {
